@@ -1,6 +1,7 @@
-import SluVerif.Props.Checkers
+import SluVerif.Props.CheckersC
 import SluVerif.Props.C01
 #print axioms Slu.checkResidual_iff
 #print axioms Slu.factor_identity
 #print axioms Slu.factor_permR_isPerm
 #print axioms Slu.solve_correct
+#print axioms Slu.cCheckLU_sound
